@@ -51,10 +51,12 @@ def run(chk, tier, seed, replay):
     with tlc.Scratch("c01") as s:
         # ext*: the derived members of the crop / rescale families, transform_about_centre with shears and non-uniform
         # scales, warp_to_mask, pyramids and smooth PWA / TPS warps - alone on a 6x8 image and after one framing operation
-        plan = [("depth2", "MC_Image_quick.cfg", {}), ("ext_depth1", "MC_Image_ext68.cfg", {}), ("ext_depth2", "MC_Image_extq.cfg", {})]
+        # fullmask: the same operations started from an all-true mask (what every MaskedImage has by default)
+        plan = [("depth2", "MC_Image_quick.cfg", {}), ("ext_depth1", "MC_Image_ext68.cfg", {}), ("ext_depth2", "MC_Image_extq.cfg", {}),
+                ("fullmask_depth1", "MC_Image_fullmask.cfg", {})]
         if tier == "thorough":
             plan = [("depth2", "MC_Image_thorough.cfg", {}), ("sim3", "MC_Image_sim.cfg", dict(simulate=32, depth=4, seed=seed + 1)),
-                    ("ext_depth1", "MC_Image_ext68.cfg", {}), ("ext_depth2", "MC_Image_ext.cfg", {})]
+                    ("ext_depth1", "MC_Image_ext68.cfg", {}), ("ext_depth2", "MC_Image_ext.cfg", {}), ("fullmask_depth1", "MC_Image_fullmask.cfg", {})]
         for label, cfg, kw in plan:
             out, r = generate(chk, label, "MC_Image", cfg, s, workers=16, timeout=3000, **kw)
             behs = tlc.read_emitted(out)
